@@ -104,7 +104,7 @@ def null_plus(e, env):
     return False
 
 
-def mk(rng, nsel, having_kind, norder, limit, distinct):
+def mk(rng, nsel, having_kind, norder, limit, distinct, tie_first=False):
     groups = ["a", "b", "c", "d"][:rng.choice([3, 3, 4])]
     rows, rid = [], 0
     for _ in range(rng.choice([7, 9, 11])):
@@ -117,6 +117,8 @@ def mk(rng, nsel, having_kind, norder, limit, distinct):
     for k in range(nsel):
         # shapes 1 and 5 (an item that STARTS with one aggregate call followed by arithmetic, e.g. avg(v) + 3) are a pinned finding (AggThenArithmeticPerRow)
         sel.append({"al": "c%d" % k, "e": item(rng, rng.choice([0, 2, 3, 4, 0, 2, 3, 4, 6]))})
+    if tie_first:      # first select item = count(v) (few distinct values: ties), the others as usual
+        sel[0] = {"al": "c0", "e": aggref("count", "v")}
     having = None
     if having_kind == "alias":
         having = {"t": "cmp", "op": rng.choice([">", ">=", "<", "<="]), "a": col(sel[0]["al"]), "b": num(rng.choice([2, 5, 10, 20]))}
@@ -138,9 +140,14 @@ def mk(rng, nsel, having_kind, norder, limit, distinct):
         keyvals = []
         for g in set(r["g"] for r in rows[:n]):
             env = {k: pyagg(d["fn"], [r.get(d["arg"]) for r in rows[:n] if r["g"] == g]) for k, d in defs.items()}
-            keyvals.append(pyeval(strip(ItemE(sel, order[0]["al"])), env))
-        if any(v is None for v in keyvals) or len(set(keyvals)) != len(keyvals):
+            keyvals.append(tuple(pyeval(strip(ItemE(sel, o["al"])), env) for o in order))
+        # the order must be total on the batch: key tuples pairwise different (ties on the FIRST key are welcome when a second key breaks them)
+        if any(v is None for kv in keyvals for v in kv) or len(set(keyvals)) != len(keyvals):
             return None
+        if limit and len(set(kv[0] for kv in keyvals)) != len(keyvals):
+            return None              # with LIMIT the first key alone decides which rows are "the first n"
+        for o in order:
+            o["bare"] = 1 if (o["desc"] == 0 and rng.random() < 0.5) else 0      # ASC is the default: a key may be written without a direction
     # a '+' with a NULL aggregate operand (all inputs of the group NULL) is the pinned finding AggNullPlusIsString: screen it out
     for g in set(r["g"] for r in rows[:n]):
         env = {k: pyagg(d["fn"], [r.get(d["arg"]) for r in rows[:n] if r["g"] == g]) for k, d in defs.items()}
@@ -152,7 +159,7 @@ def mk(rng, nsel, having_kind, norder, limit, distinct):
         txt += " HAVING " + agg_sql(having)
     txt += " WITH (TIMESTAMP='ts', TIMEUNIT='ms')"
     if order:
-        txt += " ORDER BY " + ", ".join("%s %s" % (o["al"], "DESC" if o["desc"] else "ASC") for o in order)
+        txt += " ORDER BY " + ", ".join(o["al"] if o.get("bare") else "%s %s" % (o["al"], "DESC" if o["desc"] else "ASC") for o in order)
     if limit:
         txt += " LIMIT %d" % limit
     meta = {"fam": "postagg", "n": n, "aggdefs": list(defs.values()), "sel": strip(sel), "gsel": gsel, "order": order, "limit": limit, "distinct": 1 if distinct else 0}
@@ -163,6 +170,9 @@ def mk(rng, nsel, having_kind, norder, limit, distinct):
 
 def ItemE(sel, al):
     return [it["e"] for it in sel if it["al"] == al][0]
+
+
+sys.path.insert(0, os.path.dirname(os.path.abspath(__file__)))
 
 
 def run(tier):
@@ -176,6 +186,16 @@ def run(tier):
         sc = mk(rng, rng.choice([1, 2, 2, 3]), [None, "alias", "agg", "and2"][i % 4], [0, 1, 1, 2][(i // 4) % 4], [0, 0, 1, 2, 5][(i // 16) % 5] if (i // 4) % 4 else 0, i % 11 == 0)
         if sc is not None:
             scen.append(sc)
+    # ORDER BY with ties on the first key broken by a second key (the first key is a small count)
+    made = 0
+    while made < (150 if quick else 1500):
+        sc = mk(rng, 3, None, 2, 0, False, tie_first=True)
+        if sc is not None:
+            scen.append(sc); made += 1
+    # HAVING built from LIKE / IS [NOT] NULL over a text aggregate (the carrier C13 uses): rejected groups stay out
+    import C13
+    for _ in range(100 if quick else 1000):
+        scen.append(C13.having_scen(rng, ["like", "notnull", "isnull", "like_and_notnull", "notnull_and_like"], ["a%", "%b", "a_", "%", "%a%", "a%b", "_"]))
     seqfam.run_scenarios(res, scen, "TracePostAgg", tag="postagg")
     seqfam.run_pinned(res, "TracePostAgg")
     res.cov["exhaustive"] = False
